@@ -55,7 +55,9 @@ SYS_ATOMS = ["", "*", "+", "-", "0", "-1", "1$", "$", "A", "b", "zz", "A+", "B-"
              "1,2", "xx:i:1", "xx:J:{", " ", "\x00", "\u00e9", "1e5", "x" * 300, "e1", "e1+", "u1", "p", "o1-", "3X",
              "10", "11$", "A B zz", "A+ zz+", "xx:J:" + "[" * 6000 + "]" * 6000,
              # the tag which names a GFA1 edge, with values which are no identifiers
-             "ID:J:[1]", "ID:B:i,1", "ID:i:5", "ID:J:{\"a\":1}", "ID:Z:A", "ID:f:1.5", "ID:H:1A"]
+             "ID:J:[1]", "ID:B:i,1", "ID:i:5", "ID:J:{\"a\":1}", "ID:Z:A", "ID:f:1.5", "ID:H:1A",
+             # ... and the header tags which gfapy itself reads, with values of other datatypes
+             "VN:J:[1]", "VN:B:i,1", "VN:i:1", "VN:J:{\"a\":1}", "VN:f:1.0", "TS:J:[1]", "TS:Z:x", "VN:Z:1.0", "VN:Z:2.0"]
 
 
 def sys_cases():
